@@ -203,8 +203,8 @@ CLAIMED["C02"] = {
              "query models, and MatchSemTrace.tla requires equal bags of results on every sampled graph."),
     "design_ref": "DESIGN.md 4/C02 and section 5",
     "note": ("The lowerings the translator applies while emitting SQL (projection pruning, late path materialisation, predicate / limit / suffix pushdown, direction selection, exact-range and "
-             "count fast paths, aggregate traversal counts) are NOT covered: comparing optimised and unoptimised SQL needs PostgreSQL.  Only the first query part; no UNWIND, no "
-             "shortest paths; graphs are sampled per pair.  That optimize.Optimize leaves its argument alone is checked under C05."),
+             "count fast paths, aggregate traversal counts) are NOT covered: comparing optimised and unoptimised SQL needs PostgreSQL.  Query parts up to the first WITH that does more than hand variables on; no UNWIND, "
+             "no shortest paths, no updating clauses; graphs are sampled per pair.  That optimize.Optimize leaves its argument alone is checked under C05."),
     "technique": "TLA+ matching semantics evaluated by TLC on TLC-enumerated graphs for query parts exported before and after the real optimiser's rewrites",
 }
 
